@@ -67,7 +67,10 @@ use crate::{
     authority::StateReadExt as _,
     oracles::price_feed::oracle::{
         currency_pair_strategy::DefaultCurrencyPairStrategy,
-        state_ext::StateWriteExt,
+        state_ext::{
+            StateReadExt as _,
+            StateWriteExt,
+        },
     },
 };
 
@@ -612,6 +615,20 @@ pub(super) async fn apply_prices_from_vote_extensions<S: StateWriteExt>(
         }
     };
     for price in prices {
+        // A currency pair removed by a transaction in this block no longer has any state to
+        // update.
+        if state
+            .get_currency_pair_state(price.currency_pair())
+            .await
+            .wrap_err("failed to get currency pair state")?
+            .is_none()
+        {
+            debug!(
+                "skipping price for currency pair removed in this block currency_pair=\"{}\"",
+                price.currency_pair()
+            );
+            continue;
+        }
         let quote_price = QuotePrice {
             price: price.price(),
             block_timestamp: astria_core::Timestamp {
